@@ -1,10 +1,14 @@
 INIT Init
 NEXT MCNext
 CONSTANTS
-  HandlerStacks <- LStacks4
+  HandlerStacks <- LStacks3
+  AddShapes <- Shapes
+  MaxAdds = 1
+  MaxCycles = 2
 INVARIANT StartupInOrder
 INVARIANT ShutdownReversed
 INVARIANT StartupBeforeShutdown
+INVARIANT CyclesInOrder
 INVARIANT FirstFailureStops
 INVARIANT EventsLegal
 INVARIANT CompleteMeansAllRan
